@@ -136,6 +136,11 @@ int main(int argc, char **argv){
   misuse("setSurplusRefinement(tol, output)(global grid with a rule that is not a sequence)", [&]{ grid.setSurplusRefinement(0.1, 0, std::vector<int>()); }, grid.isGlobal() && !OneDimensionalMeta::isSequence(grid.getRule()) && nl > 0 && !constructing && OUTS > 0);
   misuse("setSurplusRefinement(tol, output)(global grid with a rule that is not a sequence, valid limits)", [&]{ grid.setSurplusRefinement(0.1, 0, oklim); }, grid.isGlobal() && !OneDimensionalMeta::isSequence(grid.getRule()) && nl > 0 && !constructing && OUTS > 0);
   misuse("setSurplusRefinement(tol, criteria)(global grid with a rule that is not a sequence)", [&]{ grid.setSurplusRefinement(0.1, refine_classic, 0, std::vector<int>()); }, grid.isGlobal() && !OneDimensionalMeta::isSequence(grid.getRule()) && nl > 0 && !constructing && OUTS > 0);
+  misuse("setAnisotropicRefinement(local polynomial / wavelet grid, valid limits)", [&]{ grid.setAnisotropicRefinement(type_iptotal, 1, 0, oklim); }, !empty && nl > 0 && local && !constructing && OUTS > 0);
+  misuse("setSurplusRefinement(tol, output)(local polynomial / wavelet / fourier grid, valid limits)", [&]{ grid.setSurplusRefinement(0.1, 0, oklim); }, !empty && nl > 0 && (local || grid.isFourier()) && !constructing && OUTS > 0);
+  misuse("setSurplusRefinement(tol, criteria)(global / sequence / fourier grid, valid limits)", [&]{ grid.setSurplusRefinement(0.1, refine_classic, 0, oklim); }, !empty && nl > 0 && !local && !(grid.isSequence() || (grid.isGlobal() && OneDimensionalMeta::isSequence(grid.getRule()))) && !constructing && OUTS > 0);
+  misuse("getCandidateConstructionPoints(tol, criteria)(global / sequence / fourier grid, valid limits)", [&]{ grid.getCandidateConstructionPoints(0.1, refine_classic, 0, oklim); }, constructing && !local);
+  misuse("getCandidateConstructionPoints(type, output)(local polynomial / wavelet grid, valid limits)", [&]{ grid.getCandidateConstructionPoints(type_level, 0, oklim); }, constructing && local);
   misuse("setSurplusRefinement(tol, output)(during construction)", [&]{ grid.setSurplusRefinement(0.1, 0, std::vector<int>()); }, constructing);
   misuse("setSurplusRefinement(tol, criteria)(output out of range, valid limits)", [&]{ grid.setSurplusRefinement(0.1, refine_classic, OUTS + 3, oklim); }, !empty && nl > 0 && !constructing && OUTS > 0);
   misuse("setSurplusRefinement(tol, criteria)(negative tolerance, valid limits)", [&]{ grid.setSurplusRefinement(-1.0, refine_classic, 0, oklim); }, !empty && nl > 0 && !constructing && OUTS > 0);
